@@ -220,7 +220,7 @@ def parseValueU (s : String) : Value :=
 
 /-- one annotation spec as a hint: `-` plain; `cls,opt,shape` Annotated (wrapped in a Union with None when opt) -/
 def specToHint (s : String) : Except String Hint :=
-  if s == "-u" || s == "-o" then .ok .plain else        -- `int | str`, `int | None`: PEP 604 unions of plain types
+  if s == "-u" || s == "-o" || s == "-n" || s == "-v" || s == "-s" then .ok .plain else   -- … NewType, TypeVar, LiteralString        -- `int | str`, `int | None`: PEP 604 unions of plain types
   if s == "-a" then .ok (.annotated false none) else   -- `Annotated[int, 'count']`: metadata that is no dltype annotation
   match parseAnnSpec s with
   | .absent => .ok .plain
@@ -575,7 +575,7 @@ def parseHStep (hp : HParse) (st : String) : HParse :=
     | .good a => { hp with aliases := hp.aliases ++ [(alias, a)] }
     | .bad e => { hp with err := hp.err <|> some e }
     | .absent => { hp with err := hp.err <|> some "bad-op" }
-  | ["V", pid, kind, scope] => { hp with ops := hp.ops ++ [.setProvider pid (kind != "bad" && kind != "badfalsy" && kind != "badstr" && kind != "baddict") (parseScope scope)] }
+  | ["V", pid, kind, scope] => { hp with ops := hp.ops ++ [.setProvider pid (kind != "bad" && kind != "badfalsy" && kind != "badstr" && kind != "baddict" && kind != "instbad") (parseScope scope)] }
   | ["S", pid, scope] => { hp with ops := hp.ops ++ [.setScope pid (parseScope scope)] }
   | ["D", fid, pid, params, ret, nested] =>
     let ps := (splitSemi params).map fun p =>
